@@ -2,18 +2,19 @@
 # Sensitivity regression: run every seeded change through the quick check of the property it breaks.
 #   tools/run_all_seeded.sh [tier]      -> seeded/RESULTS.txt ("<id> <PROP> detected|MISSED (exit code)")
 tier=${1:-quick}; from=${2:-}
-out=/verif/seeded/RESULTS.txt; [ -n "$from" ] || : > $out
+V=${PSV_VERIF:-/verif}
+out=$V/seeded/RESULTS.txt; [ -n "$from" ] || : > $out
 export PSV_NO_SHRINK=1     # detection only: the replay files of each detection are already under seeded/<id>/replays
-for d in /verif/seeded/*/; do
+for d in $V/seeded/*/; do
   id=$(basename $d); [ -f $d/meta.json ] || continue
   [ -n "$from" ] && [[ "$id" < "$from" ]] && continue
   prop=$(python3 -c "import json;print(json.load(open('$d/meta.json'))['breaks_property'])")
-  /verif/tools/run_seeded.sh $d/patch.diff $prop $tier > /tmp/psv-seeded-run.log 2>&1; rc=$?
-  sigs=$(grep -c "signature:" /tmp/psv-seeded-run.log)
+  PSV_VERIF=$V $V/tools/run_seeded.sh $d/patch.diff $prop $tier > $V/seeded/.run.log 2>&1; rc=$?
+  sigs=$(grep -c "signature:" $V/seeded/.run.log)
   # exit 1 = violation reported; exit 2 with signature lines = violation reported and the run was additionally
   # non-reproducible (e.g. a change that makes results depend on uninitialised memory): both are alarms
   if [ $rc -eq 1 ] || { [ $rc -eq 2 ] && [ $sigs -gt 0 ]; }; then echo "$id $prop detected (exit $rc, $sigs signature lines)" | tee -a $out
   elif [ $rc -eq 3 ]; then echo "$id $prop NOT-APPLICABLE (patch does not apply at HEAD: obsolete after a later fix)" | tee -a $out
   else echo "$id $prop MISSED (exit $rc)" | tee -a $out; fi
 done
-rm -f /tmp/psv-seeded-run.log
+rm -f $V/seeded/.run.log
